@@ -356,7 +356,7 @@ Print Assumptions C11_cut_removal_record_not_rebound.
     violations; the same history observed on the code as it is yields none of them *)
 Example C11_cache_monitor_not_vacuous :
   let mk restart sess fabs res kres inc :=
-    mkOp true 0 None None 0 None false [] restart sess fabs res kres inc in
+    mkOp true 0 None None 0 None false [] restart sess fabs res kres inc None false false [] [] in
   let bad := [ mk false (Some (2, 71)) [1; 2] [(2, 71)] [] [(1, 1); (2, 2)];          (* H:2:71 *)
                mk false None [1; 2] [(2, 71)] [(2, 71)] [(1, 1); (2, 2)];             (* J *)
                mk true None [1] [] [(2, 71)] [(1, 1)];                                (* X1:2~1 *)
@@ -371,7 +371,35 @@ Example C11_cache_monitor_not_vacuous :
   check_stale_ops 0 good ++ check_rebound 0 [] good = [] /\
   (* a session established anew under the new fabric binds the record anew *)
   check_rebound 0 [] (firstn 4 good ++ [mk false (Some (2, 71)) [1; 2] [(2, 71)] [] [(1, 1); (2, 1000)]]) = [] /\
-  check_stale_cuts [mkCut 2 true [] [1] [(2, 71)]; mkCut 3 true [] [1; 2] [(2, 71)]] = [(V_STALE, 2)].
+  check_stale_cuts [mkCut 2 true [] [1] [(2, 71)] []; mkCut 3 true [] [1; 2] [(2, 71)] []] = [(V_STALE, 2)].
+Proof. vm_compute. repeat split. Qed.
+
+(** the same for the subscription slots: D1:3, D2:4, restart, RemoveFabric(2), restart, index 2 commissioned
+    again, restart - observed on a persist pass that does not clear the slots it did not write itself in this
+    boot (slot 1 keeps the record of fabric 2), and as the code is *)
+Example C11_subscription_monitor_not_vacuous :
+  let mk restart subd pass fabs subs ksubs inc :=
+    mkOp true 0 None None 0 None false [] restart None fabs [] [] inc subd pass false subs ksubs in
+  let i0 := [(1, 1); (2, 2)] in
+  let pre := [ mk false (Some (1, 3)) true [1; 2] [(1, 3)] [(0, (1, 3))] i0;
+               mk false (Some (2, 4)) true [1; 2] [(1, 3); (2, 4)] [(0, (1, 3)); (1, (2, 4))] i0;
+               mk true None false [1; 2] [(1, 3); (2, 4)] [(0, (1, 3)); (1, (2, 4))] i0 ] in
+  let bad := pre ++
+             [ mk false None true [1] [(1, 3)] [(0, (1, 3)); (1, (2, 4))] [(1, 1)];                        (* X1:2 *)
+               mk true None true [1] [(1, 3)] [(0, (1, 3)); (1, (2, 4))] [(1, 1)];                         (* Q *)
+               mk false None false [1; 2] [(1, 3)] [(0, (1, 3)); (1, (2, 4))] [(1, 1); (2, 1000)];         (* Z2 *)
+               mk true None false [1; 2] [(1, 3); (2, 4)] [(0, (1, 3)); (1, (2, 4))] [(1, 1); (2, 1000)] ] in
+  let good := pre ++
+             [ mk false None true [1] [(1, 3)] [(0, (1, 3))] [(1, 1)];
+               mk true None false [1] [(1, 3)] [(0, (1, 3))] [(1, 1)];
+               mk false None false [1; 2] [(1, 3)] [(0, (1, 3))] [(1, 1); (2, 1000)];
+               mk true None false [1; 2] [(1, 3)] [(0, (1, 3))] [(1, 1); (2, 1000)] ] in
+  check_subs_mirror 0 [] bad ++ check_subs_stale_ops 0 bad ++ check_subs_rebound 0 [] bad
+    = [(V_SUBS_MIRROR, 3); (V_SUBS_STALE_LIVE, 4); (V_SUBS_REBOUND, 6)] /\
+  check_subs_mirror 0 [] good ++ check_subs_stale_ops 0 good ++ check_subs_rebound 0 [] good = [] /\
+  (* a record behind an empty slot is not resumed: not stale in the sense of (d) *)
+  check_subs_stale_cuts [mkCut 5 true [] [1] [] [(0, (1, 3)); (2, (2, 4))]; mkCut 6 true [] [1] [] [(0, (1, 3)); (1, (2, 4))]]
+    = [(V_SUBS_STALE, 6)].
 Proof. vm_compute. repeat split. Qed.
 
 (** the stores of the other handlers: time zone, trusted time source (removed with its fabric),
